@@ -2050,3 +2050,38 @@ def _(it, ci, a, d):
 @model('mem::drop', 'drop')
 def _(it, ci, a, d):
     return UNIT
+
+
+@model('str::matches')
+def _(it, ci, a, d):
+    s = sv(a[0])
+    p = _pat(a[1])
+    out = []
+    i = 0
+    while p:
+        k = s.find(p, i)
+        if k < 0:
+            break
+        out.append(p)
+        i = k + len(p)
+    return Opaque('Matches', PyIter(out))
+
+
+@model('str::match_indices')
+def _(it, ci, a, d):
+    s = sv(a[0])
+    p = _pat(a[1])
+    out = []
+    i = 0
+    while p:
+        k = s.find(p, i)
+        if k < 0:
+            break
+        out.append(Tup([len(s[:k].encode('utf-8')), p]))
+        i = k + len(p)
+    return Opaque('MatchIndices', PyIter(out))
+
+
+@model('str::bytes')
+def _(it, ci, a, d):
+    return Opaque('Bytes', PyIter(list(sv(a[0]).encode('utf-8'))))
